@@ -96,10 +96,44 @@ func (r *Runner) flatKey(obj int) int { return r.key(r.Digest(obj).GetKey(r.keyF
 func (r *Runner) hierKeys(obj int) (canonical int, lookups []int) {
 	d := r.Digest(obj)
 	canonical = r.key(d.GetKey(digest.KeyWithoutInstance))
-	for _, pd := range d.GetDigestsWithParentInstanceNames() {
+	// the instance names under which an upload makes the object visible to this reader: every component-wise
+	// prefix of the reader's name, shortest first - computed here from the name itself, not with the code under test
+	inst := r.objs[obj].Instance
+	prefixes := []string{""}
+	if inst != "" {
+		cs := strings.Split(inst, "/")
+		for i := range cs {
+			prefixes = append(prefixes, strings.Join(cs[:i+1], "/"))
+		}
+	}
+	for _, p := range prefixes {
+		pd := digest.MustNewDigest(p, d.GetDigestFunction().GetEnumValue(), d.GetHashString(), d.GetSizeBytes())
 		lookups = append(lookups, r.key(pd.GetKey(digest.KeyWithInstance)))
 	}
 	return
+}
+
+// storedUnderPrefix reports whether the real index currently resolves the object under some component-wise prefix
+// of the reader's instance name (hierarchical stores): then a read under that name must find it.
+func (r *Runner) storedUnderPrefix(obj int) bool {
+	d := r.Digest(obj)
+	inst := r.objs[obj].Instance
+	prefixes := []string{""}
+	if inst != "" {
+		cs := strings.Split(inst, "/")
+		for i := range cs {
+			prefixes = append(prefixes, strings.Join(cs[:i+1], "/"))
+		}
+	}
+	r.st.Lock.RLock()
+	defer r.st.Lock.RUnlock()
+	for _, p := range prefixes {
+		pd := digest.MustNewDigest(p, d.GetDigestFunction().GetEnumValue(), d.GetHashString(), d.GetSizeBytes())
+		if _, err := r.st.KLM.Get(local.NewKeyFromString(pd.GetKey(digest.KeyWithInstance))); err == nil {
+			return true
+		}
+	}
+	return false
 }
 
 func joinInts(xs []int) string {
@@ -112,7 +146,13 @@ func joinInts(xs []int) string {
 
 func (r *Runner) hier() bool { return r.st.Cfg.Kind == "hier" }
 
-func (r *Runner) state() { r.m("state", r.st.State()) }
+func (r *Runner) state() {
+	if len(r.st.FreeHits) > 0 {
+		r.oracle("C04", "the device region of a block on the allocator's free list was accessed by a reader or writer that is still active", r.st.FreeHits[0])
+		r.st.FreeHits = nil
+	}
+	r.m("state", r.st.State())
+}
 
 func (r *Runner) contentID(obj int) string { return sha(r.Content(obj)) }
 
@@ -323,7 +363,12 @@ func (r *Runner) get(obj int) {
 	id := r.nextOp
 	r.nextOp++
 	writesBefore, newsBefore, discardsBefore := r.devWrites(), r.st.Alloc.News.Load(), r.discards.total()
+	stored := r.hier() && r.storedUnderPrefix(obj)
 	kind, data := consume(r.st.BA.Get(context.Background(), r.Digest(obj)))
+	if stored && kind == "not-found" {
+		r.oracle("C10", "an object stored under a component-wise prefix of the reader's instance name was not found",
+			fmt.Sprintf("Get of object %d (instance %q)", obj, r.objs[obj].Instance))
+	}
 	// evaluated with the block count *after* the call: blocks the call itself allocated count against the guarantee
 	must := r.mustSurvive(obj)
 	impl := kind
